@@ -383,6 +383,7 @@ func (r *PropResult) Report() int {
 	var samples []any
 	var violations []*Obligation
 	knownSeen := map[string]bool{}
+	var knownReplay []string
 	funcs := map[string]bool{}
 	var slowest int64
 	for _, o := range all {
@@ -413,6 +414,22 @@ func (r *PropResult) Report() int {
 				if !knownSeen[o.Known] {
 					knownSeen[o.Known] = true
 					fmt.Printf("KNOWN-FINDING: property=%s %s\n", prop, o.Known)
+					// thorough tier: the finding is replayed against the real code (it must still reproduce)
+					if r.Tier == "thorough" {
+						if sc, ok := scenarioForObligation(o); ok {
+							failed, _, err := runOverlayTest(sc.pkgRel, "TestGvcReplay", sc.src)
+							switch {
+							case err != nil:
+								knownReplay = append(knownReplay, o.Name+": scenario could not be run: "+err.Error())
+							case failed:
+								knownReplay = append(knownReplay, o.Name+": REPRODUCED on the real code: "+sc.what)
+								fmt.Printf("  reproduced on the real code: %s\n", sc.what)
+							default:
+								knownReplay = append(knownReplay, o.Name+": scenario did NOT reproduce on this tree: "+sc.what)
+								fmt.Printf("  note: the scenario of this finding no longer reproduces on the real code\n")
+							}
+						}
+					}
 				}
 				samples = append(samples, map[string]any{"obligation": o.Name, "status": "known-finding", "what": o.Known})
 				continue
@@ -493,6 +510,7 @@ func (r *PropResult) Report() int {
 		"discharged":             nDis,
 		"obligations_generated":  nOb,
 		"known_findings":         nKnown,
+		"known_findings_replayed": knownReplay,
 		"explanation":            "obligations counts the proof obligations this claim rests on; obligations that are refuted on the current tree and recorded in KNOWN_FINDINGS.jsonl (known_findings) are generated and re-posed on every run but are not part of the proved set: the property is NOT proved for the clause they belong to",
 		"violations":             nViol,
 		"covers_checked":         nCover,
@@ -500,7 +518,7 @@ func (r *PropResult) Report() int {
 		"checker_cmd":            fmt.Sprintf("bin/gvc check %s --tier %s", prop, r.Tier),
 		"trusted_base":           []string{"gvc (SSA->SMT VC generator)", "golang.org/x/tools/go/ssa v0.29.0", "go/types", "z3 5.1.0", "z3 4.8.12", "cvc5 1.0.3"},
 		"functions_under_contract": fl,
-		"trusted_contracts":      r.Trusted,
+		"trusted_contracts":      append([]string{}, r.Trusted...),
 		"by_solver":              solverCount,
 		"solver_ms":              solverMs,
 		"slowest_obligation_ms":  slowest,
